@@ -7,7 +7,7 @@ import os
 import core
 from core import gz, glist, gopt, gbool, gval
 
-FILES = ["workload/resource.py", "workload/resources.py", "workers/workers.py", "workload/strategy.py"]
+FILES = ["workload/resource.py", "workload/resources.py", "workers/workers.py", "workload/strategy.py", "simulator.py"]
 TRUSTED = [
     "hand-written Gallina model Model/Res.v + Model/Worker.v of Resource/Resources/Worker/WorkerPool(s) (not generated "
     "from source): tied to /repo on every run by the differential stream S-ledger, which compares after EVERY operation "
@@ -519,7 +519,14 @@ def run_monitors(ctx, cases, mon, tag):
         if not texts:
             continue
         ty, fn = MON_FN[stream]
-        bad = ctx.monitor_stream("%s%s" % (stream, tag), HDR, ty, fn, texts, shard=300)
+        # identical observations are evaluated once (first occurrence is reported)
+        first = {}
+        for i, t in enumerate(texts):
+            first.setdefault(t, i)
+        uniq = sorted(first.values())
+        ubad = ctx.monitor_stream("%s%s" % (stream, tag), HDR, ty, fn, [texts[i] for i in uniq], shard=300)
+        ctx.cov["streams"]["%s%s:monitor" % (stream, tag)]["observations_before_dedup"] = len(texts)
+        bad = [uniq[b] for b in ubad]
         for b in bad[:2]:
             w = mon.where[stream][b]
             case = cases[w[0]]
@@ -577,6 +584,8 @@ def still_fails(w, run):
     if k == "double-load":               # a pending profile without allocation
         wk = last[0][1]
         return wk[4] != [] and wk[0][3] == []
+    if k == "fit-refused":               # can_accomodate_strategy said yes, place_task raised
+        return codes[-1] == 1 and objs_at(obs, n - 1)[0][1][2][0] == 1
     if k == "negative-quantity":
         return any(q < 0 for _, q in last[0][1][4])
     raise ValueError(k)
@@ -643,14 +652,91 @@ def exhaustive_cases(maxlen, limit=None):
 
 
 # --------------------------------------------------------------------------------------------
+# end-to-end runs: whenever no task is placed, every live worker is back at full capacity
+# --------------------------------------------------------------------------------------------
+def sim_idle_stream(ctx, n):
+    """Whole simulations of /repo (adapter harness/impl/sim.py and generator harness/simgen.py of the S-sim
+    checks, used read-only): class-level wrappers record, after every Worker.place_task / remove_task on the
+    live cluster, (allocated, total) per resource name through the public getters, and every clock step records
+    the placed tasks.  Greedy policies only (no profile loading); worlds carrying the input signature of a
+    finding of another property (zero runtime, closed loop) are left out."""
+    try:
+        import simgen
+    except ImportError as e:                      # the S-sim machinery is not there: nothing is claimed for this stream
+        ctx.cov["input_distribution"]["sim_idle"] = {"skipped": "harness/simgen.py not importable: %s" % e}
+        return
+    worlds = []
+    while len(worlds) < n:
+        w = simgen.gen_world(ctx.rng, policy=ctx.rng.choice(["EDF", "FIFO", "LSF"]), conditionals=ctx.rng.random() < 0.5)
+        if simgen.signature(w):
+            continue
+        worlds.append(w)
+    try:
+        runs = core.run_impl("sim.py", {"worlds": worlds}, timeout=900)["runs"]
+    except Exception as e:                       # noqa: BLE001 - the adapter belongs to another check
+        ctx.cov["input_distribution"]["sim_idle"] = {"skipped": "sim adapter failed: %s" % str(e)[-300:]}
+        return
+    idle_items, idle_where, use_items, use_where = [], [], [], []
+    stats = {"worlds": len(worlds), "ended": 0, "idle_instants": 0, "usage_observations": 0, "not_evaluated": 0}
+    for wi, (w, r) in enumerate(zip(worlds, runs)):
+        if r.get("status") != "ended":
+            stats["not_evaluated"] += 1
+            continue
+        stats["ended"] += 1
+        latest = {}
+        try:
+            for li, e in enumerate(r["log"]):
+                if e[0] == "worker" and e[1] in ("place", "remove") and e[5] == "ok":
+                    latest[e[2]] = e[6]
+                    use_items.append(glist(["(%s, %s)" % (gz(a), gz(t)) for _, a, t in e[6]]))
+                    use_where.append([wi, li])
+                elif e[0] == "step" and e[4] == [] and latest:
+                    for wn, u in sorted(latest.items()):
+                        idle_items.append(glist(["(%s, %s)" % (gz(a), gz(t)) for _, a, t in u]))
+                        idle_where.append([wi, li, wn])
+                    stats["idle_instants"] += 1
+            for wn, u, placed in r.get("idle", []):
+                if not placed:
+                    idle_items.append(glist(["(%s, %s)" % (gz(a), gz(t)) for _, a, t in u]))
+                    idle_where.append([wi, "end", wn])
+        except (IndexError, KeyError, TypeError, ValueError) as e:
+            stats["not_evaluated"] += 1
+            stats["format_problem"] = str(e)[:200]
+    stats["usage_observations"] = len(use_items)
+    ctx.cov["input_distribution"]["sim_idle"] = stats
+    ctx.rules.append("S-sim-idle: whole simulations (EDF/FIFO/LSF, generated clusters x DAG workloads x release patterns x flags) "
+                     "through the real Simulator; monitor check_usage after every place/remove on the live cluster and check_idle "
+                     "(allocated = 0 for every resource of every worker) at every clock step at which no task is placed and at the end")
+    ctx.cov["distinct_nontrivial"] += stats["idle_instants"] and stats["ended"]
+    for name, items, where, fn, what in (
+            ("M-sim-usage", use_items, use_where, "check_usage", "a live worker reports allocated < 0 or allocated > total during a simulation"),
+            ("M-sim-idle", idle_items, idle_where, "check_idle", "no task is placed but a live worker is not back at full capacity (resources leaked by the simulation)")):
+        if not items:
+            continue
+        bad = ctx.monitor_stream(name, HDR, "list (Z * Z)", fn, items, shard=2000)
+        for b in bad[:2]:
+            ctx.violation("%s_%d" % (name.replace("-", ""), b), {"monitor": name, "what": what, "where": where[b],
+                                                                   "world": worlds[where[b][0]], "usage": items[b]})
+
+
+# --------------------------------------------------------------------------------------------
+def _t(ctx, name):
+    import time
+    now = time.time()
+    ctx.cov.setdefault("stage_seconds", {})[name] = round(now - getattr(ctx, "_tlast", ctx.t0), 1)
+    ctx._tlast = now
+
+
 def run(ctx):
     ctx.fingerprint(FILES)
     built = ctx.build("C04", deps=["Model/Worker.v"])
+    _t(ctx, "build")
     quick = ctx.tier == "quick"
-    n = 500 if quick else 4000
+    n = 400 if quick else 4000
     cases = [gen_case(ctx.rng, 10 if quick else 14) for _ in range(n)]
     runs = core.run_impl("ledger.py", {"cases": cases})["runs"]
     impl = [r["obs"] for r in runs]
+    _t(ctx, "impl-ledger")
     ctx.rules.append("S-ledger: histories of allocate/allocate_multiple/deallocate/get_allocated_resources on Resources, "
                      "place (plain, batch)/remove/load/evict/step/get_allocated_resources on Worker, place (all branches)/"
                      "remove/load/evict/step on WorkerPool, copy/deepcopy of any of them, on 1-3 resource names x 1-3 "
@@ -689,6 +775,7 @@ def run(ctx):
         model_ok = False
         ctx.broken.append({"kind": "correspondence", "name": "S-ledger", "detail": str(e)[-600:]})
 
+    _t(ctx, "S-ledger")
     # ---------------- monitors on the implementation's own observations
     mon = Mon()
     stats = {"inside_hypotheses": 0, "outside_hypotheses": 0, "tainted_objects": 0, "objects": 0}
@@ -707,11 +794,17 @@ def run(ctx):
         ctx.broken.append({"kind": "monitor", "name": "C04 monitors", "detail": str(e)[-600:]})
         py_fallback(ctx, cases, runs)
 
+    _t(ctx, "monitors")
     # ---------------- recorded findings
     try:
         replay_corpus(ctx)
     except core.ModelEvalError as e:
         ctx.broken.append({"kind": "correspondence", "name": "S-ledger-corpus", "detail": str(e)[-600:]})
+
+    _t(ctx, "corpus")
+    # ---------------- end-to-end runs
+    _run_sim_idle(ctx)
+    _t(ctx, "sim-idle")
 
     # ---------------- exhaustive short histories
     exlen = 2 if quick else 4
@@ -733,6 +826,7 @@ def run(ctx):
                                            "model": mv, "what": "Worker observations differ from the model"})
     except core.ModelEvalError as e:
         ctx.broken.append({"kind": "correspondence", "name": "S-ledger-exhaustive", "detail": str(e)[-600:]})
+    _t(ctx, "exhaustive")
     if not quick:
         # the monitors on every exhaustive history of length <= 3 as well (full observation after every operation)
         ex = [dict(c, last_only=False) for c in ex if len(c["cmds"]) <= 3]
@@ -746,6 +840,14 @@ def run(ctx):
             run_monitors(ctx, ex, emon, "-exh")
         except core.ModelEvalError as e:
             ctx.broken.append({"kind": "monitor", "name": "C04 monitors (exhaustive)", "detail": str(e)[-600:]})
+
+
+
+def _run_sim_idle(ctx):
+    try:
+        sim_idle_stream(ctx, 30 if ctx.tier == "quick" else 300)
+    except core.ModelEvalError as e:
+        ctx.broken.append({"kind": "monitor", "name": "S-sim-idle", "detail": str(e)[-600:]})
 
 
 def py_fallback(ctx, cases, runs):
